@@ -71,8 +71,9 @@ PROPS.update({
         "level": "proof",
         "level_text": "session parameters incl. deprecated spellings are postconditions of Session.setup for every settings dict",
         "level_note": COMMON_NOTE + "; JSON values modelled by an uninterpreted sort with tag predicates",
-        "tasks": ["Session.setup", "SequentialRunner._generate_markets[count-range-names]", "SequentialRunner._generate_agents[count-range-names]"],
-        "not_decided": ["inheritance, distributions, class lookup: contracts not finished in this commit"],
+        "tasks": ["Session.setup", "SequentialRunner._generate_markets[count-range-names]", "SequentialRunner._generate_agents[count-range-names]", "JsonRandom.random",
+                  "SequentialRunner._generate_sessions[session]"],
+        "not_decided": ["inheritance, class lookup: contracts not finished in this commit"],
     },
 })
 EXEC_TASKS = ["Market._execution", "Market._execute_orders", "Market.remain_executable_orders", "OrderBook.change_order_volume", "OrderBook._remove", "Order.compare"]
@@ -149,6 +150,6 @@ PROPS.update({
 })
 PROPS["C10"]["tasks"] += SKELETON
 PROPS["C05"]["tasks"] += RUNNER_ELEMS
-PROPS["C06"]["tasks"] += SKELETON
+PROPS["C06"]["tasks"] += SKELETON + ["SequentialRunner._generate_sessions[session]"]
 for k in PROPS:
     NOT_CLAIMED.pop(k, None)
